@@ -73,7 +73,7 @@ def zoom_rbs(array, newSize, order=3):
         xSize = newSize[0]
         ySize = newSize[1]
 
-    except IndexError:
+    except (IndexError, TypeError):
         xSize = ySize = newSize
 
     coordsX = numpy.linspace(0, array.shape[0]-1, xSize)
